@@ -297,7 +297,7 @@ def layer_case(N, C, modes, flags, B=1, nograd=False):
 ACTS = {"id": torch.nn.Identity, "tanh": torch.nn.Tanh}
 
 
-def fno_case(N, C, modes, layers, act, flags, in_dim=1, out_dim=1, modes_form="asis"):
+def fno_case(N, C, modes, layers, act, flags, in_dim=1, out_dim=1, modes_form="asis", reordered=False):
     """FNO(up-sampling, `layers` Fourier layers + activation, down-sampling).
     modes_form: 'asis' hands `modes` to the constructor unchanged (int, or the documented
     tuple of N numbers for an N-D domain), 'perlayer' hands a list with one entry per layer."""
@@ -306,9 +306,13 @@ def fno_case(N, C, modes, layers, act, flags, in_dim=1, out_dim=1, modes_form="a
     mt = tuple(modes) if isinstance(modes, (tuple, list)) else (modes,)
     name = "fno%dd/N%s/C%d/M%s%s/L%d/%s/%s%s" % (len(N), _name_grid(N), C, _name_grid(mt), "" if modes_form == "asis" else "pl",
                                                   layers, act, flags, "" if (in_dim, out_dim) == (1, 1) else "/io%d%d" % (in_dim, out_dim))
+    if reordered:
+        # the input field has two named channels (f, g); the Points handed to the model list them as (g, f)
+        name += "/input_variables_reordered"
 
     def body(env):
-        X = tp.spaces.Rn("f", in_dim)
+        X = tp.spaces.Rn("f", in_dim) if not reordered else tp.spaces.R1("f") * tp.spaces.R1("g")
+        XIN = X if not reordered else tp.spaces.R1("g") * tp.spaces.R1("f")
         U = tp.spaces.Rn("u", out_dim)
         fm = modes if modes_form == "asis" else [list(mt) if len(mt) > 1 else mt[0] for _ in range(layers)]
         model = FNO(X, U, fourier_layers=layers, hidden_channels=C, fourier_modes=fm, activations=ACTS[act](),
@@ -325,16 +329,25 @@ def fno_case(N, C, modes, layers, act, flags, in_dim=1, out_dim=1, modes_form="a
 
         def f(t):
             del hidden[:]
-            out = model(Points(t, X)).as_tensor
+            out = model(Points(t, XIN)).as_tensor
             return dict(out=out, hidden=list(hidden))
 
         y = f(x)
+        same_named = None
+        if reordered:  # the same named data in declaration order gives the same output
+            y2 = model(Points(torch.flip(x, dims=(-1,)), X)).as_tensor
+            same_named = (F.realize(y2), F.realize(y["out"]))
         axes = [(1 + i, n) for i, n in enumerate(N)]
         pairs = _shift_pairs(f, x, y, axes, combined=True)
-        return dict(x_before=snap, x_after=F.realize(x), pairs=pairs,
+        return dict(x_before=snap, x_after=F.realize(x), pairs=pairs, same_named=same_named,
                     shape_ok=tuple(y["out"].shape) == (1,) + N + (out_dim,) and len(y["hidden"]) == layers)
 
-    return Case(name, body, _equiv_goals, family="fno%dd/%s/%s" % (len(N), act, flags),
+    def goals(o, L, env):
+        yield from _equiv_goals(o, L, env)
+        if o.get("same_named") is not None:
+            yield "same_named_data_in_declaration_order", _all_eq(L, o["same_named"][0], o["same_named"][1])
+
+    return Case(name, body, goals, family="fno%dd/%s/%s" % (len(N), act, flags),
                 params=dict(N=N, C=C, modes=mt, layers=layers, act=act, modes_form=modes_form, **fl))
 
 
@@ -491,6 +504,7 @@ def cases(tier):
         cs.append(fno_case((4,), 2, 2, 2, "tanh", "all"))
         cs.append(fno_case((4,), 1, 3, 2, "id", "plain"))
         cs.append(fno_case((3,), 2, 2, 1, "tanh", "skip", in_dim=2, out_dim=2))
+        cs.append(fno_case((4,), 1, 2, 1, "tanh", "linb", in_dim=2, reordered=True))
         # 2-D domain, modes in the list-of-lists form and in the documented "tuple of N numbers" form
         cs.append(fno_case((2, 2), 1, (2, 2), 1, "tanh", "linb", modes_form="perlayer"))
         cs.append(fno_case((2, 2), 1, (2, 2), 3, "tanh", "linb", modes_form="asis"))
